@@ -73,11 +73,19 @@ def _sigma(ctx: Any, t: tuple, m: int, valprof: str) -> dict:
     return sig
 
 
-def h_judge(ctx: Any, n: int, m: int, impl: str, kind: str, prof: str, valprof: str, twin: bool = False) -> None:
+def h_judge(ctx: Any, n: int, m: int, impl: str, kind: str, prof: str, valprof: str, history: bool = False, twin: bool = False) -> None:
     p = gens.gen(ctx, n, _prof(prof))
     t = O.expand(p)
     ctx.assume(O.has_meta(t))
     v = ctx.int('v')
+    if history and impl == 'py':
+        # a judgement must not depend on earlier ones: the sibling patterns are judged first (same variable, and its neighbour)
+        for sib in gens.siblings(p):
+            for w in (v, v + 1):
+                try:
+                    sib.evar_is_free(w)
+                except Exception:
+                    ctx.count('warmup_raised')
     if impl == 'py':
         assert kind == 'e_fresh'
         judged = bool(p.evar_is_free(v))
@@ -109,12 +117,18 @@ def h_judge(ctx: Any, n: int, m: int, impl: str, kind: str, prof: str, valprof: 
     ctx.check(ok, f'C06.{impl}.{kind}.unsound[{t[0]}]', lambda: f'{O.show(t)} judged {kind}({v}) but instance {O.show(inst)} (sigma={ {k: O.show(s) for k, s in sig.items()} })')
 
 
-def h_notation(ctx: Any, n: int, prof: str = 'meta_nt', twin: bool = False) -> None:
+def h_notation(ctx: Any, n: int, prof: str = 'meta_nt', history: bool = False, twin: bool = False) -> None:
     """a pattern and its expansion get the same judgement (Python side; the checker has no notation)"""
     p = gens.gen(ctx, n, _prof(prof))
     ctx.assume('Instantiate' in gens.kinds(p))
     pe = gens.from_term(O.expand(p))
     v = ctx.int('v')
+    if history:
+        for sib in gens.siblings(p):
+            try:
+                sib.evar_is_free(v)
+            except Exception:
+                ctx.count('warmup_raised')
     a, b = bool(p.evar_is_free(v)), bool(pe.evar_is_free(v))
     ctx.count('reached')
     ctx.sample({'pattern': repr(p), 'var': repr(v)})
@@ -144,6 +158,10 @@ def levels(tier: str) -> list[dict]:
                 L.append(dict(label=f'rs/{kind}/full/n={n},val<=2', module=M, fn='h_judge', kwargs=dict(n=n, m=2, impl='rs', kind=kind, prof='meta_full', valprof='val_full'), budget_s=bud, required=False, twin=False))
     for n in ([3, 4] if q else [3, 4, 5]):
         L.append(dict(label=f'py/notation/partial-instantiate-of-open-bodies/n={n}', module=M, fn='h_notation', kwargs=dict(n=n, prof='meta_raw'), budget_s=bud, required=n <= 4, twin=False))
+    for n in ([2, 3] if q else [2, 3, 4]):
+        L.append(dict(label=f'py/e_fresh-after-sibling-judgements/n={n},val<={m}', module=M, fn='h_judge', kwargs=dict(n=n, m=m, impl='py', kind='e_fresh', prof='meta_e', valprof='val_e', history=True), budget_s=bud, required=n <= 3, twin=False))
+        L.append(dict(label=f'py/notation-after-sibling-judgements/n={n + 1}', module=M, fn='h_notation', kwargs=dict(n=n + 1, history=True), budget_s=bud, required=n <= 3, twin=False))
+        L.append(dict(label=f'py/notation-after-sibling-judgements/partial-instantiate-of-open-bodies/n={n + 1}', module=M, fn='h_notation', kwargs=dict(n=n + 1, prof='meta_raw', history=True), budget_s=bud, required=n <= 3, twin=False))
     for n in ([2, 3, 4] if q else [2, 3, 4, 5]):
         L.append(dict(label=f'py/notation/n={n}', module=M, fn='h_notation', kwargs=dict(n=n), budget_s=bud, required=n <= 3, twin=(n == 3)))
     return L
